@@ -271,6 +271,8 @@ BOUNDS = {'quick': 'names: every file name of 0-12 bytes over {a . t x p} (spell
                    'get_txtpp_file: stems 1-2 bytes, extensions 0/1/2/5 bytes (incl. `txtpp`), both candidate sources present or not; selection: '
                    'every subset of 11 candidate entries (3 source shapes, 5 look-alikes, nested sub-directories) x 18 input lists x recursion',
           'thorough': 'names up to 15 bytes'}
+from . import project as _project
+BOUNDS = {k: v + _project.bounds_note('C11', k) for k, v in BOUNDS.items()}
 ASSUMPTIONS = ['D9: a source whose own extension is `txtpp` twice (x.txtpp.txtpp) is outside the domain (its output is again a txtpp name)',
                'no symlinks; read_dir lists exactly the entries of the FS model (order irrelevant: each file is a separate task)',
                'dependencies are added by the coordinator (C02); here sources have none']
